@@ -7,7 +7,7 @@ import Nervus.Driver.Capi
 import Nervus.Driver.CapiSched
 import Nervus.Driver.Capix
 import Nervus.Driver.Codec
-import Nervus.Driver.Crash
+import Nervus.Driver.HostCrash
 import Nervus.Driver.Cypher
 import Nervus.Driver.Cypher14
 import Nervus.Driver.CypherUpdate
@@ -61,7 +61,7 @@ def streams : List (String × Stream) := ([] : List (String × Stream))
   |>.cons ("capi", CapiStream.stream)
   |>.cons ("capiryw", CapiStream.streamRyw)
   |>.cons ("capix", CapixStream.stream)
-  |>.cons ("crash", CrashStream.stream)
+  |>.cons ("hostcrash", HostCrashStream.stream)
 
 def main (args : List String) : IO UInt32 := do
   match args with
